@@ -976,8 +976,24 @@ func (n *Node) StateView() map[string]map[string]string {
 	v["params"]["gov/acl"] = js(gp.ACL)
 	v["params"]["gov/daoOwner"] = gp.DAOOwner.String()
 	v["params"]["gov/upgrade"] = js(gp.Upgrade)
-	for i, cl := range n.App.VerifPocketKeeper().GetAllClaims(ctx) {
-		v["claims"][fmt.Sprintf("%d", i)] = js(cl)
+	// Pending claims are read INDEPENDENTLY of Keeper.GetAllClaims (the function the export itself uses): raw prefix
+	// scan of the pocketcore store with the module's exported claim key prefix, every value decoded from a private
+	// copy of the bytes into a fresh variable. Item key = hex of the store key behind the prefix
+	// (servicer address | session header hash | evidence type byte), which is the claim's identity on any chain.
+	st := n.App.Store().GetKVStore(n.App.Keys[pocketTypes.StoreKey])
+	it, err := sdk.KVStorePrefixIterator(st, pocketTypes.ClaimKey)
+	if err != nil {
+		panic(err)
+	}
+	defer it.Close()
+	for ; it.Valid(); it.Next() {
+		id := fmt.Sprintf("%x", it.Key()[len(pocketTypes.ClaimKey):])
+		var cl pocketTypes.MsgClaim
+		if err := cdc.UnmarshalBinaryBare(append([]byte{}, it.Value()...), &cl, ctx.BlockHeight()); err != nil {
+			v["claims"][id] = "ERR:" + err.Error()
+			continue
+		}
+		v["claims"][id] = js(cl)
 	}
 	return v
 }
